@@ -164,11 +164,14 @@ class DharAlgorithm:
             v.name for v in reversed(distance_ordering) if v in v_tilde_vertices_set
         ]
 
-        for v_name in vertices_to_process_names:
-            while self.configuration.get_degree_at(v_name) < 0:
-                self.configuration.borrowing_move(v_name)
-                if self.visualizer:
-                    self.visualizer.add_step(self.configuration.divisor, CFOrientation(self.graph, []), q=self.q_vertex.name, description=f"{v_name} performs a borrowing move.", source_function="Sending debt to q...")
+        # A borrowing move at v takes chips from all neighbours of v, including ones that were
+        # already processed, so one pass is not enough: repeat until no processed vertex is in debt.
+        while any(self.configuration.get_degree_at(v_name) < 0 for v_name in vertices_to_process_names):
+            for v_name in vertices_to_process_names:
+                while self.configuration.get_degree_at(v_name) < 0:
+                    self.configuration.borrowing_move(v_name)
+                    if self.visualizer:
+                        self.visualizer.add_step(self.configuration.divisor, CFOrientation(self.graph, []), q=self.q_vertex.name, description=f"{v_name} performs a borrowing move.", source_function="Sending debt to q...")
 
 
     def run(self) -> Tuple[Set[str], CFOrientation]:
